@@ -375,3 +375,130 @@ def pending_writers(cx):
             cx.ok(key, "pending_conf_index := f(last_index) (leader block / filter / auto-leave; decided by their own obligations)", s, value=show(v))
         else:
             cx.bad(key, "unrecognised writer of pending_conf_index: %s" % show(v), s, value=show(v))
+
+
+CC_KINDS = frozenset(["EntryConfChange", "EntryConfChangeV2"])
+
+
+def _is_entry_type(e):
+    return any((x[0] == "field" and x[2].endswith("Entry.entry_type")) or (x[0] == "call" and x[1].endswith("Entry::get_entry_type")) for x in walk(e))
+
+
+def _cc_lit(cx, l, depth=0):
+    """The literal says 'this entry is a conf change' (of kinds returned), else None."""
+    if l[0] == "in" and _is_entry_type(l[1]) and l[2] and l[2] <= CC_KINDS:
+        return l[2]
+    if l[0] == "is" and l[2] is True and l[1][0] == "call" and l[1][1].endswith("::any") and depth < 2:
+        for a in l[1][2]:
+            if a[0] == "closure":
+                from ..idioms import closure_returns
+                rets = closure_returns(cx.prog, a[1])
+                if not rets:
+                    return None
+                kinds = set()
+                for lits, v in [(r[0], r[1]) for r in rets]:
+                    ks = [k for k in (_cc_lit(cx, x, depth + 1) for x in lits) if k]
+                    if v == ("bool", True) and ks:
+                        kinds |= set().union(*ks)
+                    elif v == ("bool", False) and not ks:
+                        pass
+                    else:
+                        return None
+                return frozenset(kinds) or None
+    return None
+
+
+@obligation("CONF.unapplied_scan", ["C01", "C02", "C09"], floor=4, kind="return-path classification + pairing",
+            why="the scan of committed-but-unapplied entries must report a conf change found on ANY page of the range")
+def unapplied_scan(cx):
+    from ..idioms import closure_returns
+    f = cx.fn("Raft::has_unapplied_conf_changes")
+    cx.check(f is not None, "fn", "the unapplied-conf-change scan exists")
+    if f is None:
+        return
+    n = 0
+    name = fn_name(f)
+    scans = [c for sp, c in cx.prog.calls_out[f.key] if c.kind == "call" and sp.endswith(cx.sfx("RaftLog::scan"))]
+    cx.check(len(scans) == 1, name + ":scan-call", "it pages through the range with one RaftLog::scan call")
+    for sc in scans:
+        args = call_args(cx, sc)
+        clos = [a for a in args if a[0] == "closure"]
+        cx.check(len(clos) == 1, name + ":callback", "the page callback is a closure literal", sc)
+        if len(clos) != 1:
+            continue
+        caps = dict(clos[0][2])
+        cfn = cx.prog.facts.fns[cx.prog.short[clos[0][1]][0]]
+        ca = cx.prog.A(cfn)
+        g = cx.pg(cfn)
+        # the flag: a captured bool local, initialised false, only ever set to true by the callback
+        writes = []
+        for bi, blk in enumerate(cfn.body.blocks):
+            for si, st in enumerate(blk["stmts"]):
+                if st.get("k") == "assign" and st["place"]["p"] == ["*"]:
+                    base = ca.expr_local(st["place"]["l"], (bi, si))
+                    if base[0] == "upvar":
+                        writes.append((bi, si, base[1], st["rv"]))
+        cx.check(len(writes) >= 1, name + ":flag-write", "the callback records a hit in a captured flag", sc)
+        flags = {w[2] for w in writes}
+        cx.check(len(flags) <= 1, name + ":flag-one", "one captured flag")
+        for bi, si, up, rv in writes:
+            c = rv.get("use", {}).get("const", {})
+            is_true = c.get("ty") == "bool" and c.get("val", {}).get("int") == 1
+            cx.check(is_true, name + ":flag-sticky", "the callback only ever SETS the flag (a later page must not clear an earlier hit)", Site(cfn, bi, si, "write"))
+            ok = g.guarded((bi, si), lambda lits: any(_cc_lit(cx, l) for l in lits))[0]
+            cx.check(ok, name + ":flag-guard", "the flag is set only for a conf-change entry", Site(cfn, bi, si, "write"))
+            n += 1
+        wblocks = {w[0] for w in writes}
+        ok, ne = g.after_edge_must_pass(lambda lits: any(_cc_lit(cx, l) for l in lits), lambda b: b in wblocks)
+        cx.check(ok and ne >= 1, name + ":flag-converse", "every conf-change entry seen sets the flag", sc)
+        # the callback's verdict: false (= stop) exactly on a hit, true (= next page) otherwise
+        rets = closure_returns(cx.prog, clos[0][1])
+        cx.check(bool(rets), name + ":callback-paths", "the callback's return paths can be enumerated", sc)
+        kinds = set()
+        for r in rets or []:
+            lits, v = r[0], r[1]
+            ks = [k for k in (_cc_lit(cx, l) for l in lits) if k]
+            if ks:
+                kinds |= set().union(*ks)
+                cx.check(v == ("bool", False), name + ":stop-on-hit", "the callback stops the scan (returns false) once a conf change is found (found %s)" % show(v), sc)
+            else:
+                cx.check(v == ("bool", True), name + ":continue-on-miss", "the callback asks for the next page (returns true) when the page holds no conf change (found %s)" % show(v), sc)
+            n += 1
+        cx.check(kinds == set(CC_KINDS), name + ":kinds", "both EntryConfChange and EntryConfChangeV2 count as a hit (found %s)" % sorted(kinds), sc)
+        # the function's result is the flag
+        fa = cx.prog.A(f)
+        flag_local = [v for k, v in caps.items() if k in flags]
+        cx.check(len(flag_local) == 1 and flag_local[0][0] == "local", name + ":flag-local", "the flag is a local of the scanning function")
+        if len(flag_local) == 1 and flag_local[0][0] == "local":
+            L = flag_local[0][1]
+            inits = [st["rv"].get("use", {}).get("const", {}) for blk in f.body.blocks for st in blk["stmts"] if st.get("k") == "assign" and st["place"]["l"] == L and not st["place"]["p"]]
+            cx.check(len(inits) == 1 and inits[0].get("ty") == "bool" and inits[0].get("val", {}).get("int") == 0, name + ":flag-init", "the flag starts out false and the scanning function itself never assigns it again")
+            fg = cx.pg(f)
+            for lits, v, b in fg.returns():
+                if any(l[0] == "in" and l[1][0] == "call" and l[1][1].endswith(cx.sfx("RaftLog::scan")) for l in lits):
+                    cx.check(v[0] == "local" and v[1] == L, name + ":result", "after the scan the function returns the flag (found %s)" % show(v), sc)
+                    n += 1
+    # RaftLog::scan's side of the contract: a false verdict ends the scan, a true one moves to the next page
+    for s in cx.prog.find(cx.sfx("RaftLog::scan")):
+        if s.is_closure:
+            continue
+        g = cx.pg(s)
+        sname = fn_name(s)
+        def verdict(l, b):
+            return l[0] == "is" and l[2] is b and l[1][0] == "call" and "call_mut" in l[1][1]
+        slice_blk = _call_block_pred(s, cx.sfx("RaftLog::slice"))
+        ok, ne = g.after_edge_never_reaches(lambda lits: any(verdict(l, False) for l in lits), slice_blk)
+        cx.check(ok and ne >= 1, sname + ":stop", "scan fetches no further page once the callback returned false")
+        ok2 = any(g.block_reaches(m_blk, slice_blk) for m_blk in _edge_targets(g, lambda lits: any(verdict(l, True) for l in lits)))
+        cx.check(ok2, sname + ":continue", "scan goes on to the next page while the callback returns true")
+        n += 2
+    cx.check(n >= 4, "floor", "scan callback sites were found")
+
+
+def _edge_targets(g, pred):
+    out = []
+    for n in range(len(g.nodes)):
+        for m, lits in g.edges[n] or []:
+            if lits and pred(lits):
+                out.append(g.nodes[n][0])
+    return out
